@@ -170,7 +170,9 @@ def oracle_churn(case, recs):
             for v in ok:
                 if v not in allv:
                     hits.append((MISS if overlaps(v) else None, "listener %d exists throughout but never gets accepted event %d%s" % (i, v, " (its send overlapped a listener creation / removal)" if overlaps(v) else "")))
-    if fin is not None and len(fin) > 3 and fin[3] is not None and fin[3] != case.meta["N"]:
+    if fin is not None and len(fin) > 3 and isinstance(fin[3], tuple):
+        hits.append((None, "after everything live was consumed and released a send never returns (%d of %d further events were accepted before)" % (fin[3][1], case.meta["N"])))
+    elif fin is not None and len(fin) > 3 and fin[3] is not None and fin[3] != case.meta["N"]:
         ogre = case.meta["chan"].startswith("ogre_arc")
         orphan = any(k == "drops" for (k, a, b) in churn_iv)
         raced = any(overlaps(v) for v in ok)
@@ -285,7 +287,7 @@ def final_info(recs):
         i, n = d[j], d[j+1]; drained[i] = d[j+2:j+2+n]; j += 2 + n
     bad = d[j+2:j+2+d[j+1]] if j < len(d) else []
     j = j + 2 + (d[j+1] if j < len(d) else 0)
-    probe = d[j+1] if j + 1 < len(d) and d[j] == -2 else None
+    probe = d[j+1] if j + 1 < len(d) and d[j] == -2 else ("blocked", d[j+1]) if j + 1 < len(d) and d[j] == -3 else None
     return quiet, drained, bad, probe
 
 def oracle_history(case, recs):
